@@ -7,7 +7,7 @@ use conjure_http::client::{Client, DisplaySeqEncoder, Service as _};
 use conjure_http::private::{parse_query_params, path_param, query_param, UriBuilder};
 use conjure_http::{conjure_client, endpoint};
 use std::sync::Mutex;
-use conjure_http::server::conjure::{FromPlainDecoder, FromPlainSeqDecoder};
+use conjure_http::server::conjure::{FromPlainDecoder, FromPlainOptionDecoder, FromPlainSeqDecoder};
 use conjure_http::server::ConjureRuntime;
 use conjure_http::PathParams;
 use http::Request;
@@ -430,6 +430,18 @@ fn check_len(t: &Template, vals: &[String], rt: &ConjureRuntime, r: &mut Report,
             Err(p) => fail(r, "server-query-panic", format!("query_param panicked: {}", p)),
         }
         if want.len() == 1 {
+            // the decoder generated servers use for optional<T> arguments: a present value is
+            // Some(value), the empty string included
+            match vcommon::catch(|| query_param::<Option<String>, FromPlainOptionDecoder>(rt, &qp, k, k)) {
+                Ok(Ok(Some(v))) if v == want[0] => {}
+                Ok(other) => fail(r, "server-query-decode-optional", format!("URI {:?}: optional query_param({}) = {:?}, expected Some({:?})", text, k, other.map_err(|e| e.cause().to_string()), want[0])),
+                Err(p) => fail(r, "server-query-panic", format!("query_param panicked: {}", p)),
+            }
+            match vcommon::catch(|| query_param::<Option<String>, conjure_http::server::FromStrOptionDecoder>(rt, &qp, k, k)) {
+                Ok(Ok(Some(v))) if v == want[0] => {}
+                Ok(other) => fail(r, "server-query-decode-optional-fromstr", format!("URI {:?}: optional (FromStr) query_param({}) = {:?}, expected Some({:?})", text, k, other.map_err(|e| e.cause().to_string()), want[0])),
+                Err(p) => fail(r, "server-query-panic", format!("query_param panicked: {}", p)),
+            }
             match vcommon::catch(|| query_param::<String, FromPlainDecoder>(rt, &qp, k, k)) {
                 Ok(Ok(v)) if v == want[0] => {}
                 Ok(other) => fail(r, "server-query-decode-single", format!("URI {:?}: single query_param({}) = {:?}, expected {:?}", text, k, other.map_err(|e| e.cause().to_string()), want[0])),
